@@ -62,13 +62,28 @@ theorem line_search_descent (obj : List ℝ → ℝ) (D : Deriv ℝ) (cap : Opti
 /-- **powell_step_descent**.  A `PowellMultiDimensions::doStep` from a state that satisfies the
 invariant of a run returns `fret_`, which it has not increased: every line minimisation and the
 evaluation that follows it end no higher than they began, so the `throw` "line minimization failed"
-plays no role.  (The function itself may be left at the extrapolated point: `Off`, not `Sync`.) -/
+plays no role. -/
 theorem powell_step_descent (obj : List ℝ → ℝ) (D : Deriv ℝ) (cap : Option Nat) (fuel : Nat) (B : ℝ) (pt0 : List ℝ)
     (ns : List Nat) (s s' : St (Fn ℝ) (Powell ℝ) ℝ) (v : ℝ) (hi : Powell.Inv obj B pt0 ns s)
     (h : powellDoStep (Fn.iface obj D cap) fuel s = .ok (s', v)) :
     Spec.descent v s.ext.fret = true ∧ s'.ext.fret = v ∧ Powell.Base obj pt0 ns s' := by
   obtain ⟨a, b, c⟩ := powellDoStep_spec obj D cap pt0 ns fuel s s' v hi.base h
   exact ⟨by simp only [Spec.descent, ScalarReal.leb_iff]; exact c, b.symm, a⟩
+
+/-- **powell_step_consistent** (the repaired `doStep`).  After *every* step the function is at the
+optimiser's parameters and the value the step returns is the objective there — so
+`getFunction()->getValue()` after a `step()`, which is what a `MetaOptimizer` holding a Powell optimiser in
+step mode returns, is the objective at the reported parameters.  (Before the repair the branch
+"extrapolated point better, direction set kept" left the function at the extrapolated point.) -/
+theorem powell_step_consistent (obj : List ℝ → ℝ) (D : Deriv ℝ) (cap : Option Nat) (fuel : Nat) (B : ℝ) (pt0 : List ℝ)
+    (ns : List Nat) (s s' : St (Fn ℝ) (Powell ℝ) ℝ) (v : ℝ) (hi : Powell.Inv obj B pt0 ns s)
+    (h : powellDoStep (Fn.iface obj D cap) fuel s = .ok (s', v)) :
+    s'.fn.point = matchPoint pt0 s'.core.params ∧ Spec.consistent obj v s'.fn.point = true ∧
+    (Fn.iface obj D cap).value s'.fn = v := by
+  obtain ⟨a, b, -⟩ := powellDoStep_spec obj D cap pt0 ns fuel s s' v hi.base h
+  have hat := powellDoStep_at obj D cap pt0 ns fuel s s' v hi.base h
+  have hv : v = obj s'.fn.point := by rw [b, a.fret, hat]
+  exact ⟨hat, by simp only [Spec.consistent, ScalarReal.eqb_iff]; exact hv, hv.symm⟩
 
 /-- **powell_descent** (with `reported_value_consistent` and `state_at_report`).  After `init` and
 `optimize`:
